@@ -48,7 +48,10 @@ func verifNewSys(n int) *verifSys {
 }
 
 // pull: node `to` pulls from node `from`, with an optional truncation to `limit` events
-func (s *verifSys) pull(from, to int, limit int) error {
+func (s *verifSys) pull(from, to int, limit int) error { return s.pullTx(from, to, limit, true) }
+
+// pullTx: as pull; withTx says whether the puller submits a fresh transaction first
+func (s *verifSys) pullTx(from, to int, limit int, withTx bool) error {
 	known := s.nodes[to].c.knownEvents()
 	diff, err := s.nodes[from].c.eventDiff(known)
 	if err != nil {
@@ -61,9 +64,11 @@ func (s *verifSys) pull(from, to int, limit int) error {
 	if err != nil {
 		return err
 	}
-	// the puller has a fresh transaction of its own to place
-	s.nodes[to].c.addTransactions([][]byte{{byte(to), byte(s.txSeq[to])}})
-	s.txSeq[to]++
+	if withTx {
+		// the puller has a fresh transaction of its own to place
+		s.nodes[to].c.addTransactions([][]byte{{byte(to), byte(s.txSeq[to])}})
+		s.txSeq[to]++
+	}
 	if err := s.nodes[to].c.sync(s.nodes[from].c.validator.ID(), wire); err != nil {
 		return err
 	}
